@@ -27,7 +27,7 @@ import (
 
 func TestMain(m *testing.M) {
 	vcore.Init("C07", "exploration",
-		"after a drawn valid prefix (associate, establish 1-3 sessions with rich rules, one witness session of another node; in half of the cases with live sessions 1-3 Session Report Requests of the UPF's own are left waiting, and response datagrams - Session Report Response in several forms, and response types the UPF never waits for - carry their sequence numbers from the node's socket, so that mutated responses reach the response handler): (1) structure-aware: a valid message of every type go-upf accepts (Heartbeat, Association Setup/Update/Release, PFD Management, Node Report, Session Set Deletion, "+
+		"after a drawn valid prefix (associate, establish 1-3 sessions with rich rules, one witness session of another node - in a third of the cases under a SEID that node 0 has held and released before; in half of the cases with live sessions 1-3 Session Report Requests of the UPF's own are left waiting, and response datagrams - Session Report Response in several forms, and response types the UPF never waits for - carry their sequence numbers from the node's socket, so that mutated responses reach the response handler): (1) structure-aware: a valid message of every type go-upf accepts (Heartbeat, Association Setup/Update/Release, PFD Management, Node Report, Session Set Deletion, "+
 			"Session Establishment / Modification / Deletion Request, Session Report Response) is parsed into its IE tree and 1-4 mutations are applied - header flags / length / type / SEID / sequence at boundary values, IE length +-, truncation at any offset, IE type substitution (also vendor-specific), "+
 			"nested IE corruption, value bytes set to boundary patterns, mandatory IE removal, duplication, reordering, self-nesting; (2) raw: arbitrary byte strings (mostly short, up to 64 KiB) with and without a plausible header; 1-3 such datagrams per case, from associated and never-associated sockets; "+
 			"each case runs with the no-op driver and with the real gtp5g driver on the simulated kernel. Oracle: the fatal-exit hook has not fired, no goroutine of the server died, a Heartbeat Request is answered afterwards, and the witness session (never addressed by an offending datagram) still answers an empty Modification "+
@@ -451,6 +451,7 @@ type Case struct {
 	// Outstanding: so many Session Report Requests of the UPF's own (sequence numbers 0, 1, ... to node 0) are waiting for their
 	// response when the offending datagrams arrive, so that a response datagram with such a number reaches the response handler
 	Outstanding int    `json:"outstanding,omitempty"`
+	Recycled    bool   `json:"recycled,omitempty"` // node 0 has held and released the witness's SEID before the witness got it
 	Msgs        []*Msg `json:"msgs"`
 }
 
@@ -510,6 +511,19 @@ func run(c Case) (res result) {
 			{Verb: "create", Kind: "FAR", ID: 2, Action: 0x0c, HasAction: true, OHC: &stack.OHC{TEID: base + 1, Peer: "10.0.0.9"}},
 			{Verb: "create", Kind: "PDR", ID: 1, Prec: 1, SrcIf: 1, UEIP: "10.60.0.1", FAR: 1, QERs: []uint32{1}, URRs: []uint32{1}},
 			{Verb: "create", Kind: "PDR", ID: 2, Prec: 1, SrcIf: 0, FAR: 2, QERs: []uint32{1}},
+		}
+	}
+	if c.Recycled {
+		// the witness lives under a SEID that node 0 held and released before: whatever node 0's bookkeeping still says about
+		// that SEID, (offending or valid) messages of node 0 must not touch the witness
+		o := step(stack.Op{Kind: "est", Peer: 0, Node: 0, Sess: -1, CP: 0x0f, Rules: rules(0x80)})
+		if o.Dead != nil || o.NewSess < 0 || !r.Sess[o.NewSess].Known {
+			res.v = vcore.Violatef("prefix", "prefix session not established")
+			return
+		}
+		if o2 := step(stack.Op{Kind: "del", Peer: 0, Sess: o.NewSess}); o2.Dead != nil {
+			res.v = vcore.Violatef(o2.Dead.Key, "prefix: UPF fatal exit")
+			return
 		}
 	}
 	// witness session of node 1
@@ -653,6 +667,9 @@ func account(c Case, r result) {
 	if r.matched > 0 {
 		vcore.E.Class("response_met_a_waiting_request")
 	}
+	if c.Recycled {
+		vcore.E.Class("witness_under_a_seid_another_node_had_before")
+	}
 	if r.parsed > 0 {
 		vcore.E.Class("reached_handlers")
 		var muts []string
@@ -762,6 +779,7 @@ func TestC07(t *testing.T) {
 	vcore.Check(t, vcore.N(1500, 12000), func(rt *rapid.T) {
 		c := Case{Sessions: rapid.IntRange(0, 3).Draw(rt, "sessions")}
 		c.Deleted = rapid.IntRange(0, c.Sessions).Draw(rt, "deleted")
+		c.Recycled = rapid.IntRange(0, 2).Draw(rt, "recycled") == 0
 		if c.Sessions > c.Deleted && rapid.Bool().Draw(rt, "has_outstanding") {
 			c.Outstanding = rapid.IntRange(1, 3).Draw(rt, "outstanding")
 		}
